@@ -360,3 +360,32 @@ func (s *Set) RecvPacketWithData(exp uint32, data []byte) []byte {
 	body = append(body, data...)
 	return Frame(s.SetID, TypeRecv, body)
 }
+
+// ScanPackets finds every intact packet (magic, plausible length, matching hash) at any byte
+// offset, as a robust reader would after damage.
+func ScanPackets(data []byte) []Packet {
+	var out []Packet
+	for off := 0; off+64 <= len(data); off++ {
+		if data[off] != 'P' || !bytes.Equal(data[off:off+8], Magic) {
+			continue
+		}
+		l := binary.LittleEndian.Uint64(data[off+8:])
+		if l < 64 || l%4 != 0 || l > uint64(len(data)-off) {
+			continue
+		}
+		end := off + int(l)
+		var p Packet
+		p.Off, p.Len, p.MagicOK, p.Complete = off, l, true, true
+		copy(p.Hash[:], data[off+16:off+32])
+		copy(p.SetID[:], data[off+32:off+48])
+		copy(p.Type[:], data[off+48:off+64])
+		p.Computed = md5.Sum(data[off+32 : end])
+		if p.Hash != p.Computed {
+			continue
+		}
+		p.Body = data[off+64 : end]
+		out = append(out, p)
+		off = end - 1
+	}
+	return out
+}
